@@ -451,6 +451,14 @@ class SubRun:
                 def c(lno, boff):
                     return len(blines[lno - 1][:boff].decode())
                 ext = [((sl, c(sl, sc)), (el, c(el, ec))) for sl, sc, el, ec in ref.matched_extents]
+                if FAMILIES[req['fam']][0] == 'expr':
+                    # the matched node's own grouping parentheses (and comments inside them) belong to its extent
+                    from .props_c04 import Pre
+                    try:
+                        pre_ = Pre(program)
+                        ext = [(lambda w: ((w[0], w[1]), (w[2], w[3])))(pre_.widen_over_parens(s[0], s[1], e[0], e[1])) for s, e in ext]
+                    except Exception:
+                        pass
                 for t in tokenize.generate_tokens(io.StringIO(program).readline):
                     if is_unique_kind(t) and any(t.start >= s and t.end <= e or (t.type == tokenize.COMMENT and s <= t.start <= e) for s, e in ext):
                         A.add(t.string)
